@@ -150,7 +150,8 @@ def identical_nested_operands(e):
 
 
 def classify(case, got=None):
-    if got is not None and isinstance(got, tuple) and got and got[0] == "ERR" and "INTERNAL Error" in str(got[-1]) and identical_nested_operands(case["expr"]):
+    if (got is not None and isinstance(got, tuple) and got and got[0] == "ERR" and "2-1-1-1" in str(got)
+            and ("INTERNAL Error" in str(got[-1]) or "Type mismatch for SET OPERATION" in str(got[-1])) and identical_nested_operands(case["expr"])):
         return "identical-nested-operands:duckdb-internal-error"
     e = case["expr"]
     n = len(e[1])
